@@ -356,7 +356,7 @@ prop('C09',
                  'loop that downgrades idle connections) on a harness-driven virtual clock, against a reference of the last keep-alive activity per connection.',
      units=[
          dict(harness='c09_keep_alive', covers=['c09.established', 'c09.time-passes', 'c09.substream-requested', 'c09.substream-opened', 'c09.polled', 'c09.downgraded', 'c09.closed'],
-              min_paths=1000, split={'quick': 4, 'thorough': 5}, params={'quick': {'steps': 5, 'fifo_futures': 1}, 'thorough': {'steps': 7, 'fifo_futures': 1}}, conform={'quick': 200, 'thorough': 2000}, nvals=24),
+              min_paths=1000, split={'quick': 4, 'thorough': 5}, params={'quick': {'steps': 5, 'fifo_futures': 1}, 'thorough': {'steps': 6, 'fifo_futures': 1}}, conform={'quick': 200, 'thorough': 2000}, nvals=24),
      ],
      assumptions=['time is the virtual clock of litep2p::verif_clock (feature `verif`): under the feature the tracker reads that clock and sleeps on it instead of std::time::Instant / tokio::time::sleep - two lines of production code differ',
                   'the connection stays open while this protocol\'s handle is downgraded (the kernel connection holds a second strong sender, like another protocol would); '
@@ -378,14 +378,14 @@ prop('C11',
               min_paths=1000, split={'quick': 5, 'thorough': 7}, params={'quick': {'steps': 4, 'io_budget': 0, 'fifo_futures': 1}, 'thorough': {'steps': 6, 'io_budget': 0, 'fifo_futures': 1}},
               conform={'quick': 100, 'thorough': 1000}, nvals=40),
          dict(harness='c11_notification_protocol', name='c11_notification_open', covers=['c11.event.opened', 'c11.event.closed', 'c11.outbound.opened', 'c11.inbound.opened', 'c11.event.notification'],
-              min_paths=100, split={'quick': 4, 'thorough': 6}, params={'quick': {'steps': 3, 'warm': 4, 'io_budget': 0, 'fifo_futures': 1}, 'thorough': {'steps': 4, 'warm': 4, 'io_budget': 1, 'fifo_futures': 1}},
+              min_paths=100, split={'quick': 4, 'thorough': 6}, params={'quick': {'steps': 3, 'warm': 4, 'io_budget': 0, 'fifo_futures': 1}, 'thorough': {'steps': 4, 'warm': 4, 'io_budget': 0, 'fifo_futures': 1}},
               conform={'quick': 100, 'thorough': 1000}, nvals=40),
      ],
      assumptions=['one remote peer, one connection at a time; the remote is scripted through its substreams (sends its handshake and stays, or closes)',
                   'timers (10 s negotiation / open time-outs) never fire within the explored window',
                   'tokio mpsc / oneshot models; FuturesUnordered serves ready futures in the real implementation\'s FIFO order; the biased select! polls its branches in source order (as the real macro does)'],
      bounds={'events': 'quick 5, thorough 6 of connect / disconnect / user open / user close / answer the pending substream request (fails, remote handshakes, remote closes) / remote opens an inbound substream (closes at once / handshakes and stays / handshakes, sends one notification and closes or stays) / user validation answer / poll stream tasks; then the connection is lost and everything is polled',
-             'carrier': 'io_budget scripted answers (quick 0: ideal carrier)'},
+             'carrier': 'ideal (io_budget 0): chunking and Pending of the substream carriers are exercised by C04/C12'},
      outside=['two real endpoints talking to each other (the remote is scripted)', 'several peers and simultaneous connections', 'time-outs', 'notification traffic on the open stream (C12)'],
      )
 
